@@ -122,19 +122,15 @@ class AFMWriter(ModelToText):
         return result
 
     def recursive_constraint_read(self, node: Node) -> str:
+        if node.is_term():
+            return str(node.data)
+        operator = node.data.value.upper()
+        if node.is_unary_op():  # the operand of a unary operation is its left child
+            return operator + " " + self._constraint_operand(node.left)
+        return (self._constraint_operand(node.left) + " " + operator + " "
+                + self._constraint_operand(node.right))
 
-        data = node.data
-        if node.is_op():
-            data = data.value.upper()
-
-        if node.left and node.right:
-            result = self.recursive_constraint_read(
-                node.left) + data + self.recursive_constraint_read(node.right)
-        elif not node.left and node.right:
-            result = data + self.recursive_constraint_read(node.right)
-        elif node.left and not node.right:
-            result = self.recursive_constraint_read(node.left) + node.data
-        else:
-            result = " " + data + " "
-
-        return result
+    def _constraint_operand(self, node: Node) -> str:
+        """Operations used as operands are parenthesised to keep the structure of the tree."""
+        text = self.recursive_constraint_read(node)
+        return "(" + text + ")" if node.is_op() else text
